@@ -53,7 +53,9 @@ def run(ctx):
         raise Infra("harness returned %d results for %d strings" % (n, len(cases)))
     ctx.samples += [c for c in cases if c["kind"] == "must-accept"][:2] + [c for c in cases if c["kind"] == "must-reject"][:2]
     # (ii) round trip over shape x magnitude classes
-    mags = [0, 1, R - 1, R, 2 ** 256 - 1, 255, 256 ** 30 + 7, 256 ** 31 - 1, 2 ** 300 + 5, 16, 0xabcdef, 2 ** 253]
+    # incl. machine-word boundaries (31/32/63/64/127/128 bits): fast paths through native integers live there
+    mags = [0, 1, R - 1, R, 2 ** 256 - 1, 255, 256 ** 30 + 7, 256 ** 31 - 1, 2 ** 300 + 5, 16, 0xabcdef, 2 ** 253,
+            2 ** 31 - 1, 2 ** 31, 2 ** 32 - 1, 2 ** 32, 2 ** 63 - 1, 2 ** 63, 2 ** 63 + 5, 2 ** 64 - 1, 2 ** 64, 2 ** 127, 2 ** 128 - 1, 2 ** 128, 2 ** 192, 2 ** 255]
     shapes = []
     import itertools
     for mode in ("insertion", "deletion"):
